@@ -14,10 +14,11 @@ import (
 type vField struct {
 	name, typ string
 	hasTag    bool
-	tag       string // text between the backquotes
-	comment   string // full comment text incl. "//", "" = none
-	comment2  string // a second comment in the same trailing group (the first must then be a /* */ comment)
-	doc       string // a comment on the line above the field (its doc comment), "" = none
+	tag       string   // text between the backquotes
+	comment   string   // full comment text incl. "//", "" = none
+	comment2  string   // a second comment in the same trailing group (the first must then be a /* */ comment)
+	doc       string   // a comment on the line above the field (its doc comment), "" = none
+	sub       []vField // non-nil: the field's type is an anonymous struct with these fields (typ is ignored)
 }
 
 // layout of the rendered source: gofmt's by default; other layouts are still valid Go
@@ -57,8 +58,44 @@ func vBuildSource(pre string, structs []vStructSrc, post string) (string, *ast.F
 			np := token.Pos(len(src) + 1)
 			src += fd.name + vGap
 			tp := token.Pos(len(src) + 1)
-			src += fd.typ
-			af := &ast.Field{Doc: docGroup, Names: []*ast.Ident{{NamePos: np, Name: fd.name}}, Type: &ast.Ident{NamePos: tp, Name: fd.typ}}
+			var ftype ast.Expr = &ast.Ident{NamePos: tp, Name: fd.typ}
+			if fd.sub != nil {
+				// anonymous struct type: one level of nested fields, each with optional tag and trailing comment
+				src += "struct {\n"
+				sfl := &ast.FieldList{Opening: tp + 7}
+				for _, sf := range fd.sub {
+					src += vIndent + vIndent
+					snp := token.Pos(len(src) + 1)
+					src += sf.name + vGap
+					stp := token.Pos(len(src) + 1)
+					src += sf.typ
+					saf := &ast.Field{Names: []*ast.Ident{{NamePos: snp, Name: sf.name}}, Type: &ast.Ident{NamePos: stp, Name: sf.typ}}
+					if sf.hasTag {
+						src += vGap
+						svp := token.Pos(len(src) + 1)
+						slit := "`" + sf.tag + "`"
+						src += slit
+						saf.Tag = &ast.BasicLit{ValuePos: svp, Kind: token.STRING, Value: slit}
+					}
+					if sf.comment != "" {
+						src += vGap
+						scp := token.Pos(len(src) + 1)
+						src += sf.comment
+						scg := &ast.CommentGroup{List: []*ast.Comment{{Slash: scp, Text: sf.comment}}}
+						saf.Comment = scg
+						f.Comments = append(f.Comments, scg)
+					}
+					src += "\n"
+					sfl.List = append(sfl.List, saf)
+				}
+				src += vIndent
+				sfl.Closing = token.Pos(len(src) + 1)
+				src += "}"
+				ftype = &ast.StructType{Struct: tp, Fields: sfl}
+			} else {
+				src += fd.typ
+			}
+			af := &ast.Field{Doc: docGroup, Names: []*ast.Ident{{NamePos: np, Name: fd.name}}, Type: ftype}
 			if fd.hasTag {
 				src += vGap
 				vp := token.Pos(len(src) + 1)
